@@ -214,6 +214,8 @@ func (fs *Filespace) WriteFile(destPath string, data []byte, filemode os.FileMod
 		ok           bool
 	)
 	destPath = varutil.CleanPath(destPath)
+	// keep a private copy: the caller may reuse its buffer
+	data = append(make([]byte, 0, len(data)), data...)
 	if destDirPath, destNodeName, err = splitContainsPath(destPath); err != nil {
 		return err
 	}
